@@ -1,4 +1,1561 @@
-//! c03 check (under construction)
+//! C03 - wire codec is lossless, matches the SCION format, never truncates silently.
+//!
+//! Bounded exhaustive enumeration of packet MODELS (described independently of sciparse's model
+//! types by `M`): every model is (a) turned into the crate's model and encoded by the real
+//! encoder, (b) turned into bytes by the independent reference writers (`vpc::refwire`,
+//! `vpc::refl4`). Oracles are listed at `check_model`. The reverse direction feeds reference
+//! encodings (canonical and deliberately non-canonical) to the real decoder.
+use std::sync::atomic::{AtomicU64, Ordering};
+
+use sciparse::{
+    address::host_addr::{ServiceAddr, WireHostAddr},
+    core::{convert::TryFromView, encode::WireEncode},
+    dataplane_path::{
+        model::DpPath,
+        onehop::model::OneHopPath,
+        standard::{
+            model::{HopField, InfoField, Segment, StandardPath},
+            types::{HopFieldFlags, HopFieldMac, InfoFieldFlags},
+        },
+        types::PathType,
+    },
+    header::model::{AddressHeader, CommonHeader, ScionPacketHeader},
+    identifier::isd_asn::IsdAsn,
+    packet::model::{ScionPacket, ScionRawPacket, ScionScmpPacket, ScionUdpPacket},
+    payload::{
+        ProtocolNumber,
+        scmp::{
+            model::{
+                ScmpDestinationUnreachable, ScmpEchoReply, ScmpEchoRequest, ScmpExternalInterfaceDown, ScmpInternalConnectivityDown, ScmpMessage,
+                ScmpMessageUnknown, ScmpPacketTooBig, ScmpParameterProblem, ScmpTracerouteReply, ScmpTracerouteRequest,
+            },
+            types::{ScmpDestinationUnreachableCode, ScmpParameterProblemCode},
+        },
+        udp::model::UdpDatagram,
+    },
+};
+use vpc::{
+    json,
+    rayon::prelude::*,
+    refl4::{self, RScmp, RScmpBody, RUdp},
+    refwire::{self, RHeader, RHop, RInfo, RPath, RStdPath},
+};
+
+// ------------------------------------------------------------------------------------------------
+// Independent model description
+// ------------------------------------------------------------------------------------------------
+
+#[derive(Clone, Debug, PartialEq, Eq)]
+pub enum HostK {
+    V4([u8; 4]),
+    V6([u8; 16]),
+    Svc(u16),
+    Unknown { id: u8, bytes: Vec<u8> },
+}
+#[derive(Clone, Debug, PartialEq, Eq)]
+pub enum PathK {
+    Empty,
+    OneHop { second_set: bool },
+    /// hops per segment (0..=3 segments), pointers
+    Std { segs: Vec<u16>, curr_inf: u8, curr_hf: u8 },
+    Unsupported { ty: u8, len: usize },
+}
+#[derive(Clone, Debug, PartialEq, Eq)]
+pub enum ScmpK {
+    DestUnreach { code: u8, quote: usize },
+    PktTooBig { mtu: u16, quote: usize },
+    ParamProblem { code: u8, pointer: u16, quote: usize },
+    ExtIfDown { ia: u64, ifid: u16, quote: usize },
+    IntConnDown { ia: u64, ingress: u16, egress: u16, quote: usize },
+    EchoReq { id: u16, seq: u16, data: usize },
+    EchoRep { id: u16, seq: u16, data: usize },
+    TraceReq { id: u16, seq: u16 },
+    TraceRep { id: u16, seq: u16, ia: u64, ifid: u16 },
+    Unknown { ty: u8, code: u8, data: usize },
+}
+#[derive(Clone, Debug, PartialEq, Eq)]
+pub enum PayK {
+    Raw { next: u8, len: usize },
+    Udp { sp: u16, dp: u16, len: usize },
+    Scmp(ScmpK),
+}
+#[derive(Clone, Debug, PartialEq, Eq)]
+pub struct M {
+    pub tc: u8,
+    pub flow: u32,
+    pub dst_ia: u64,
+    pub src_ia: u64,
+    pub dst: HostK,
+    pub src: HostK,
+    pub path: PathK,
+    pub pay: PayK,
+}
+
+fn fill(n: usize, salt: u8) -> Vec<u8> {
+    (0..n).map(|i| ((i as u32).wrapping_mul(31).wrapping_add(salt as u32) % 251) as u8 + 1).collect()
+}
+fn info_vals(k: usize) -> (u8, u16, u32) {
+    ((k as u8) & 3, 0x1000 + k as u16, 0x6000_0000 + 977 * k as u32)
+}
+fn hop_vals(j: usize) -> (u8, u8, u16, u16, [u8; 6]) {
+    let b = j as u8;
+    ((b & 3), 63u8.wrapping_add(b), 2 * j as u16 + 1, 2 * j as u16 + 2, [b, b ^ 0x5a, 0xc0 | (b & 0x3f), 1, 2, b.wrapping_mul(3)])
+}
+
+impl HostK {
+    fn wire_len(&self) -> usize {
+        match self {
+            HostK::V4(_) | HostK::Svc(_) => 4,
+            HostK::V6(_) => 16,
+            HostK::Unknown { bytes, .. } => bytes.len(),
+        }
+    }
+    fn kind(&self) -> String {
+        match self {
+            HostK::V4(_) => "v4".into(),
+            HostK::V6(_) => "v6".into(),
+            HostK::Svc(_) => "svc".into(),
+            HostK::Unknown { id, bytes } => format!("unk{}x{}", id, bytes.len()),
+        }
+    }
+    /// (DT/DL nibble, bytes) by the specification; None when the kind has no wire representation.
+    fn to_ref(&self) -> Result<(u8, Vec<u8>), &'static str> {
+        match self {
+            HostK::V4(b) => Ok((0b0000, b.to_vec())),
+            HostK::V6(b) => Ok((0b0011, b.to_vec())),
+            HostK::Svc(s) => Ok((0b0100, vec![(s >> 8) as u8, *s as u8, 0, 0])),
+            HostK::Unknown { id, bytes } => {
+                if bytes.is_empty() || bytes.len() % 4 != 0 || bytes.len() > 16 {
+                    return Err("unknown-addr-len-invalid");
+                }
+                if *id > 3 {
+                    return Err("unknown-addr-id-truncated");
+                }
+                Ok(((id << 2) | (bytes.len() / 4 - 1) as u8, bytes.clone()))
+            }
+        }
+    }
+    fn to_subject(&self) -> WireHostAddr {
+        match self {
+            HostK::V4(b) => WireHostAddr::V4((*b).into()),
+            HostK::V6(b) => WireHostAddr::V6((*b).into()),
+            HostK::Svc(s) => WireHostAddr::Svc(ServiceAddr(*s)),
+            HostK::Unknown { id, bytes } => {
+                let mut av = tinyvec::ArrayVec::<[u8; 16]>::new();
+                for b in bytes.iter().take(16) {
+                    av.push(*b);
+                }
+                WireHostAddr::Unknown { id: *id, bytes: av }
+            }
+        }
+    }
+}
+
+impl PathK {
+    fn kind(&self) -> String {
+        match self {
+            PathK::Empty => "empty".into(),
+            PathK::OneHop { .. } => "onehop".into(),
+            PathK::Std { segs, .. } => format!("std{}", segs.len()),
+            PathK::Unsupported { ty, .. } => format!("unsup{ty}"),
+        }
+    }
+    fn to_ref(&self) -> Result<RPath, &'static str> {
+        match self {
+            PathK::Empty => Ok(RPath::Empty),
+            PathK::OneHop { second_set } => {
+                let (f, s, t) = info_vals(0);
+                let h = |j: usize, zero: bool| {
+                    let (fl, e, i, g, m) = hop_vals(j);
+                    if zero { RHop { flags: 0, exp_time: 0, cons_ingress: 0, cons_egress: 0, mac: [0; 6] } } else { RHop { flags: fl, exp_time: e, cons_ingress: i, cons_egress: g, mac: m } }
+                };
+                Ok(RPath::OneHop { info: RInfo { flags: f, rsv: 0, seg_id: s, timestamp: t }, hop1: h(0, false), hop2: h(1, !second_set) })
+            }
+            PathK::Std { segs, curr_inf, curr_hf } => {
+                if segs.is_empty() || segs.len() > 3 {
+                    return Err("std-path-segment-count");
+                }
+                if segs.iter().any(|s| *s == 0) {
+                    return Err("std-path-empty-segment");
+                }
+                if segs.iter().any(|s| *s > 63) {
+                    return Err("seg-len-wraps-at-64");
+                }
+                if *curr_hf >= 64 {
+                    return Err("curr-hf-wraps-at-64");
+                }
+                if *curr_inf >= 4 {
+                    return Err("curr-inf-wraps-at-4");
+                }
+                let mut seg_len = [0u8; 3];
+                for (k, s) in segs.iter().enumerate() {
+                    seg_len[k] = *s as u8;
+                }
+                let total: usize = segs.iter().map(|s| *s as usize).sum();
+                let infos = (0..segs.len()).map(|k| { let (f, s, t) = info_vals(k); RInfo { flags: f, rsv: 0, seg_id: s, timestamp: t } }).collect();
+                let hops = (0..total).map(|j| { let (fl, e, i, g, m) = hop_vals(j); RHop { flags: fl, exp_time: e, cons_ingress: i, cons_egress: g, mac: m } }).collect();
+                Ok(RPath::Std(RStdPath { curr_inf: *curr_inf, curr_hf: *curr_hf, rsv: 0, seg_len, infos, hops }))
+            }
+            PathK::Unsupported { ty, len } => {
+                if *ty <= 2 {
+                    return Err("unsupported-path-with-supported-type");
+                }
+                if len % 4 != 0 {
+                    return Err("unsupported-path-len-not-multiple-of-4");
+                }
+                Ok(RPath::Other(*ty, fill(*len, 0x33)))
+            }
+        }
+    }
+    fn to_subject(&self) -> DpPath {
+        let inf = |k: usize| { let (f, s, t) = info_vals(k); InfoField { flags: InfoFieldFlags::from_bits_retain(f), segment_id: s, timestamp: t } };
+        let hop = |j: usize| { let (fl, e, i, g, m) = hop_vals(j); HopField { flags: HopFieldFlags::from_bits_retain(fl), expiration_units: e, cons_ingress: i, cons_egress: g, mac: HopFieldMac(m) } };
+        match self {
+            PathK::Empty => DpPath::Empty,
+            PathK::OneHop { second_set } => DpPath::OneHop(OneHopPath { info: inf(0), hops: [hop(0), if *second_set { hop(1) } else { HopField::empty() }] }),
+            PathK::Std { segs, curr_inf, curr_hf } => {
+                let mut segments = tinyvec::ArrayVec::<[Segment; 3]>::new();
+                let mut j = 0usize;
+                for (k, s) in segs.iter().enumerate().take(3) {
+                    let mut hf = tinyvec::TinyVec::<[HopField; 12]>::new();
+                    for _ in 0..*s {
+                        hf.push(hop(j));
+                        j += 1;
+                    }
+                    segments.push(Segment { info_field: inf(k), hop_fields: hf });
+                }
+                DpPath::Standard(StandardPath { current_info_field: *curr_inf, current_hop_field: *curr_hf, segments })
+            }
+            PathK::Unsupported { ty, len } => DpPath::Unsupported { path_type: PathType::from(*ty), data: fill(*len, 0x33) },
+        }
+    }
+}
+
+impl ScmpK {
+    fn kind(&self) -> &'static str {
+        match self {
+            ScmpK::DestUnreach { .. } => "scmp-dest-unreach",
+            ScmpK::PktTooBig { .. } => "scmp-pkt-too-big",
+            ScmpK::ParamProblem { .. } => "scmp-param-problem",
+            ScmpK::ExtIfDown { .. } => "scmp-ext-if-down",
+            ScmpK::IntConnDown { .. } => "scmp-int-conn-down",
+            ScmpK::EchoReq { .. } => "scmp-echo-req",
+            ScmpK::EchoRep { .. } => "scmp-echo-rep",
+            ScmpK::TraceReq { .. } => "scmp-trace-req",
+            ScmpK::TraceRep { .. } => "scmp-trace-rep",
+            ScmpK::Unknown { .. } => "scmp-unknown",
+        }
+    }
+    /// Reference message behind a header of `hl` bytes (checksum 0).
+    fn to_ref(&self, hl: usize) -> Result<RScmp, &'static str> {
+        let q = |ty: u8, n: usize| { let mut v = fill(n, 0x51); v.truncate(refl4::scmp_max_quote(ty, hl)); v };
+        let (ty, code, body) = match self {
+            ScmpK::DestUnreach { code, quote } => (1, *code, RScmpBody::DestUnreach { unused: 0, quote: q(1, *quote) }),
+            ScmpK::PktTooBig { mtu, quote } => (2, 0, RScmpBody::PacketTooBig { rsv: 0, mtu: *mtu, quote: q(2, *quote) }),
+            ScmpK::ParamProblem { code, pointer, quote } => (4, *code, RScmpBody::ParamProblem { rsv: 0, pointer: *pointer, quote: q(4, *quote) }),
+            ScmpK::ExtIfDown { ia, ifid, quote } => (5, 0, RScmpBody::ExtIfDown { ia: *ia, ifid: *ifid as u64, quote: q(5, *quote) }),
+            ScmpK::IntConnDown { ia, ingress, egress, quote } => (6, 0, RScmpBody::IntConnDown { ia: *ia, ingress: *ingress as u64, egress: *egress as u64, quote: q(6, *quote) }),
+            ScmpK::EchoReq { id, seq, data } => (128, 0, RScmpBody::Echo { id: *id, seq: *seq, data: fill(*data, 0x52) }),
+            ScmpK::EchoRep { id, seq, data } => (129, 0, RScmpBody::Echo { id: *id, seq: *seq, data: fill(*data, 0x52) }),
+            ScmpK::TraceReq { id, seq } => (130, 0, RScmpBody::Traceroute { id: *id, seq: *seq, ia: 0, ifid: 0 }),
+            ScmpK::TraceRep { id, seq, ia, ifid } => (131, 0, RScmpBody::Traceroute { id: *id, seq: *seq, ia: *ia, ifid: *ifid as u64 }),
+            ScmpK::Unknown { ty, code, data } => {
+                if refl4::scmp_fixed_len(*ty) != 4 {
+                    return Err("scmp-unknown-with-known-type");
+                }
+                (*ty, *code, RScmpBody::Other { rest: fill(*data, 0x53) })
+            }
+        };
+        Ok(RScmp { ty, code, checksum: 0, body })
+    }
+    fn to_subject(&self) -> ScmpMessage {
+        match self {
+            ScmpK::DestUnreach { code, quote } => ScmpDestinationUnreachable::new(ScmpDestinationUnreachableCode::from(*code), fill(*quote, 0x51)).into(),
+            ScmpK::PktTooBig { mtu, quote } => ScmpPacketTooBig::new(*mtu, fill(*quote, 0x51)).into(),
+            ScmpK::ParamProblem { code, pointer, quote } => ScmpParameterProblem::new(ScmpParameterProblemCode::from(*code), *pointer, fill(*quote, 0x51)).into(),
+            ScmpK::ExtIfDown { ia, ifid, quote } => ScmpExternalInterfaceDown::new(IsdAsn::from_u64(*ia), *ifid, fill(*quote, 0x51)).into(),
+            ScmpK::IntConnDown { ia, ingress, egress, quote } => ScmpInternalConnectivityDown::new(IsdAsn::from_u64(*ia), *ingress, *egress, fill(*quote, 0x51)).into(),
+            ScmpK::EchoReq { id, seq, data } => ScmpEchoRequest { identifier: *id, sequence_number: *seq, data: fill(*data, 0x52) }.into(),
+            ScmpK::EchoRep { id, seq, data } => ScmpEchoReply { identifier: *id, sequence_number: *seq, data: fill(*data, 0x52) }.into(),
+            ScmpK::TraceReq { id, seq } => ScmpTracerouteRequest { identifier: *id, sequence_number: *seq }.into(),
+            ScmpK::TraceRep { id, seq, ia, ifid } => ScmpTracerouteReply { identifier: *id, sequence_number: *seq, isd_asn: IsdAsn::from_u64(*ia), interface_id: *ifid }.into(),
+            ScmpK::Unknown { ty, code, data } => ScmpMessageUnknown::new(*ty, *code, fill(*data, 0x53)).into(),
+        }
+    }
+}
+
+impl PayK {
+    fn kind(&self) -> &'static str {
+        match self {
+            PayK::Raw { .. } => "raw",
+            PayK::Udp { .. } => "udp",
+            PayK::Scmp(s) => s.kind(),
+        }
+    }
+    fn next_hdr(&self) -> u8 {
+        match self {
+            PayK::Raw { next, .. } => *next,
+            PayK::Udp { .. } => refwire::PROTO_UDP,
+            PayK::Scmp(_) => refwire::PROTO_SCMP,
+        }
+    }
+}
+
+/// What the reference says the model looks like on the wire.
+pub struct Expected {
+    pub bytes: Vec<u8>,
+    pub hl: usize,
+    /// offset of the L4 checksum field, if the payload has one
+    pub csum_at: Option<usize>,
+}
+
+impl M {
+    fn header_ref(&self) -> Result<RHeader, &'static str> {
+        if self.flow > 0xF_FFFF {
+            return Err("flow-id-truncated");
+        }
+        let (dtl, dh) = self.dst.to_ref()?;
+        let (stl, sh) = self.src.to_ref()?;
+        let path = self.path.to_ref()?;
+        let h = RHeader { version: 0, traffic_class: self.tc, flow_id: self.flow, next_hdr: self.pay.next_hdr(), hdr_len: 0, payload_len: 0, path_type: path.path_type(), dst_tl: dtl, src_tl: stl, rsv: 0, dst_ia: self.dst_ia, src_ia: self.src_ia, dst_host: dh, src_host: sh, path };
+        if h.natural_len() > 1020 {
+            return Err("hdr-len-wraps-at-1024");
+        }
+        Ok(h.with_natural_hdr_len())
+    }
+    /// Reference encoding, or the reason the model has no wire representation.
+    pub fn expected(&self) -> Result<Expected, &'static str> {
+        let mut h = self.header_ref()?;
+        let hl = h.natural_len();
+        let (mut l4, csum_off): (Vec<u8>, Option<usize>) = match &self.pay {
+            PayK::Raw { len, .. } => (fill(*len, 0x41), None),
+            PayK::Udp { sp, dp, len } => {
+                if 8 + *len > 65535 {
+                    return Err("udp-length-wraps-at-65536");
+                }
+                (RUdp { src_port: *sp, dst_port: *dp, length: (8 + *len) as u16, checksum: 0, data: fill(*len, 0x42) }.to_bytes_raw(), Some(6))
+            }
+            PayK::Scmp(s) => (s.to_ref(hl)?.to_bytes(), Some(2)),
+        };
+        if l4.len() > 65535 {
+            return Err("payload-len-wraps-at-65536");
+        }
+        h.payload_len = l4.len() as u16;
+        if let Some(o) = csum_off {
+            let c = refwire::checksum(h.dst_ia, h.src_ia, &h.dst_host, &h.src_host, h.next_hdr, &l4);
+            l4[o..o + 2].copy_from_slice(&c.to_be_bytes());
+        }
+        let mut bytes = h.to_bytes_raw();
+        bytes.extend_from_slice(&l4);
+        Ok(Expected { bytes, hl, csum_at: csum_off.map(|o| hl + o) })
+    }
+    fn subject_header(&self) -> ScionPacketHeader {
+        ScionPacketHeader {
+            common: CommonHeader { traffic_class: self.tc, flow_id: self.flow, next_header: ProtocolNumber::from(self.pay.next_hdr()) },
+            address: AddressHeader { dst_ia: IsdAsn::from_u64(self.dst_ia), src_ia: IsdAsn::from_u64(self.src_ia), dst_host_addr: self.dst.to_subject(), src_host_addr: self.src.to_subject() },
+            path: self.path.to_subject(),
+        }
+    }
+    pub fn to_subject(&self) -> Subject {
+        let header = self.subject_header();
+        match &self.pay {
+            PayK::Raw { len, .. } => Subject::Raw(ScionPacket { header, payload: fill(*len, 0x41) }),
+            PayK::Udp { sp, dp, len } => Subject::Udp(ScionPacket { header, payload: UdpDatagram::new(*sp, *dp, fill(*len, 0x42)) }),
+            PayK::Scmp(s) => Subject::Scmp(ScionPacket { header, payload: s.to_subject() }),
+        }
+    }
+    fn class_key(&self) -> String {
+        format!("{}|{}|{}|{}", self.dst.kind(), self.src.kind(), self.path.kind(), self.pay.kind())
+    }
+}
+
+#[derive(Clone, Debug, PartialEq, Eq)]
+pub enum Subject {
+    Raw(ScionRawPacket),
+    Udp(ScionUdpPacket),
+    Scmp(ScionScmpPacket),
+}
+impl Subject {
+    fn required_size(&self) -> usize {
+        match self {
+            Subject::Raw(p) => p.required_size(),
+            Subject::Udp(p) => p.required_size(),
+            Subject::Scmp(p) => p.required_size(),
+        }
+    }
+    fn try_encode(&self, buf: &mut [u8]) -> Result<usize, String> {
+        match self {
+            Subject::Raw(p) => p.try_encode(buf),
+            Subject::Udp(p) => p.try_encode(buf),
+            Subject::Scmp(p) => p.try_encode(buf),
+        }
+        .map_err(|e| e.to_string())
+    }
+    fn try_encode_to_vec(&self) -> Result<Vec<u8>, String> {
+        match self {
+            Subject::Raw(p) => p.try_encode_to_vec(),
+            Subject::Udp(p) => p.try_encode_to_vec(),
+            Subject::Scmp(p) => p.try_encode_to_vec(),
+        }
+        .map_err(|e| e.to_string())
+    }
+    /// Decode with the decoder of the same packet type. Returns (model, trailing bytes).
+    fn decode_like(&self, b: &[u8]) -> Result<(Subject, usize), String> {
+        match self {
+            Subject::Raw(_) => ScionRawPacket::try_from_slice(b).map(|(m, r)| (Subject::Raw(m), r.len())),
+            Subject::Udp(_) => ScionUdpPacket::try_from_slice(b).map(|(m, r)| (Subject::Udp(m), r.len())),
+            Subject::Scmp(_) => ScionScmpPacket::try_from_slice(b).map(|(m, r)| (Subject::Scmp(m), r.len())),
+        }
+        .map_err(|e| e.to_string())
+    }
+    /// Which component differs (for a narrow class).
+    fn diff(&self, o: &Subject) -> &'static str {
+        let (h1, h2) = (self.header(), o.header());
+        if h1.common != h2.common {
+            "common-header"
+        } else if h1.address.dst_host_addr != h2.address.dst_host_addr {
+            "dst-host"
+        } else if h1.address.src_host_addr != h2.address.src_host_addr {
+            "src-host"
+        } else if h1.address != h2.address {
+            "isd-as"
+        } else if h1.path != h2.path {
+            "path"
+        } else {
+            "payload"
+        }
+    }
+    fn header(&self) -> &ScionPacketHeader {
+        match self {
+            Subject::Raw(p) => &p.header,
+            Subject::Udp(p) => &p.header,
+            Subject::Scmp(p) => &p.header,
+        }
+    }
+}
+
+// ------------------------------------------------------------------------------------------------
+// Oracles for one model
+// ------------------------------------------------------------------------------------------------
+
+/// An 8-aligned allocation from which `[off .. off+n]` is handed to the encoder.
+struct Aligned {
+    words: Vec<u64>,
+}
+impl Aligned {
+    fn new(n: usize, fillb: u8) -> Aligned {
+        let w = u64::from_ne_bytes([fillb; 8]);
+        Aligned { words: vec![w; (n + 16) / 8 + 1] }
+    }
+    fn slice(&mut self, off: usize, n: usize) -> &mut [u8] {
+        let p = self.words.as_mut_ptr() as *mut u8;
+        // SAFETY: words has at least n+16 bytes
+        unsafe { std::slice::from_raw_parts_mut(p.add(off), n) }
+    }
+}
+
+/// Name of the field that contains byte offset `o` of an encoding of `m` (reference layout).
+fn field_at(m: &M, hl: usize, o: usize) -> String {
+    let dl = m.dst.wire_len();
+    let sl = m.src.wire_len();
+    let p0 = 28 + dl + sl;
+    if o < 4 {
+        return "ver-tc-flow".into();
+    }
+    match o {
+        4 => return "next_hdr".into(),
+        5 => return "hdr_len".into(),
+        6 | 7 => return "payload_len".into(),
+        8 => return "path_type".into(),
+        9 => return "addr_nibbles".into(),
+        10 | 11 => return "common_rsv".into(),
+        _ => {}
+    }
+    if o < 20 {
+        return "dst_ia".into();
+    }
+    if o < 28 {
+        return "src_ia".into();
+    }
+    if o < 28 + dl {
+        return "dst_host".into();
+    }
+    if o < p0 {
+        return "src_host".into();
+    }
+    if o < hl {
+        let r = o - p0;
+        return match &m.path {
+            PathK::Std { segs, .. } => {
+                let ni = segs.len();
+                if r == 0 {
+                    "pathmeta.curr".into()
+                } else if r == 1 {
+                    "pathmeta.rsv".into() // RSV(6) + top 2 bits of Seg0Len
+                } else if r < 4 {
+                    "pathmeta.seglen".into()
+                } else if r < 4 + 8 * ni {
+                    format!("info.{}", ["flags", "rsv", "segid", "segid", "ts", "ts", "ts", "ts"][(r - 4) % 8])
+                } else {
+                    format!("hop.{}", ["flags", "exp", "in", "in", "eg", "eg", "mac", "mac", "mac", "mac", "mac", "mac"][(r - 4 - 8 * ni) % 12])
+                }
+            }
+            PathK::OneHop { .. } => {
+                if r < 8 {
+                    format!("onehop.info.{}", ["flags", "rsv", "segid", "segid", "ts", "ts", "ts", "ts"][r])
+                } else {
+                    format!("onehop.hop{}", (r - 8) / 12 + 1)
+                }
+            }
+            _ => "path-bytes".into(),
+        };
+    }
+    let r = o - hl;
+    match &m.pay {
+        PayK::Raw { .. } => "raw-payload".into(),
+        PayK::Udp { .. } => ["udp.sport", "udp.sport", "udp.dport", "udp.dport", "udp.length", "udp.length", "udp.checksum", "udp.checksum"].get(r).map(|s| s.to_string()).unwrap_or("udp.data".into()),
+        PayK::Scmp(s) => {
+            let fixed = s.to_ref(hl).map(|x| refl4::scmp_fixed_len(x.ty)).unwrap_or(4);
+            let k = s.kind();
+            match r {
+                0 => format!("{k}.type"),
+                1 => format!("{k}.code"),
+                2 | 3 => format!("{k}.checksum"),
+                _ if r < fixed => format!("{k}.info-block+{}", r - 4),
+                _ => format!("{k}.tail+{}", (r - fixed).min(8)),
+            }
+        }
+    }
+}
+
+/// Per-class tally of one chunk / of the whole run: witness count and the witness with the smallest
+/// (space number, index) - so the reported witness does not depend on thread scheduling.
+type Tally = std::collections::BTreeMap<String, (u64, (usize, u64), String, vpc::Value)>;
+
+struct Case<'a> {
+    run: &'a vpc::Run,
+    space: &'a str,
+    space_no: usize,
+    index: u64,
+    m: &'a M,
+    tally: &'a std::cell::RefCell<Tally>,
+}
+static TALLY: std::sync::Mutex<Tally> = std::sync::Mutex::new(Tally::new());
+impl Case<'_> {
+    /// Report a witness. Witnesses are tallied per chunk (the detail is only built for the first of
+    /// a class in a chunk) and handed to `Run::violation` at the end, so that a defect hit by
+    /// millions of cases neither serialises the enumeration nor makes the output racy.
+    fn viol(&self, class: &str, what: &str, extra: impl FnOnce() -> vpc::Value) {
+        let _ = self.run;
+        let mut t = self.tally.borrow_mut();
+        if let Some(e) = t.get_mut(class) {
+            e.0 += 1;
+            return;
+        }
+        let w = json!({"space": self.space, "index": self.index, "model": format!("{:?}", self.m), "detail": extra()});
+        t.insert(class.to_string(), (1, (self.space_no, self.index), what.to_string(), w));
+    }
+}
+fn merge_tally(local: Tally) {
+    let mut g = TALLY.lock().unwrap();
+    for (k, v) in local {
+        match g.get_mut(&k) {
+            None => {
+                g.insert(k, v);
+            }
+            Some(e) => {
+                e.0 += v.0;
+                if v.1 < e.1 {
+                    e.1 = v.1;
+                    e.2 = v.2;
+                    e.3 = v.3;
+                }
+            }
+        }
+    }
+}
+/// Hand everything to `Run` in class order.
+fn flush_tally(run: &vpc::Run) -> std::collections::BTreeMap<String, u64> {
+    let g = std::mem::take(&mut *TALLY.lock().unwrap());
+    let mut counts = std::collections::BTreeMap::new();
+    for (class, (n, _, what, w)) in g {
+        run.violation(&class, &what, w);
+        for _ in 1..n {
+            run.violation(&class, "", vpc::Value::Null);
+        }
+        counts.insert(class, n);
+    }
+    counts
+}
+
+fn hexcap(b: &[u8]) -> String {
+    if b.len() <= 160 { vpc::hex(b) } else { format!("{}..(+{} bytes)", vpc::hex(&b[..160]), b.len() - 160) }
+}
+
+/// Diagnose a checksum that does not verify: does it equal the sum over the pseudo header alone?
+fn checksum_class(pkt: &[u8], hl: usize, proto: &str) -> String {
+    if let Ok((h, _)) = RHeader::parse(pkt) {
+        let l4 = &pkt[hl..];
+        let off = if h.next_hdr == refwire::PROTO_UDP { 6 } else { 2 };
+        if l4.len() >= off + 2 {
+            let written = u16::from_be_bytes([l4[off], l4[off + 1]]);
+            // pseudo header only: same length word, no upper-layer bytes
+            let mut sum: u64 = 0;
+            let mut add = |bytes: &[u8]| {
+                for c in bytes.chunks(2) {
+                    sum += if c.len() == 2 { u16::from_be_bytes([c[0], c[1]]) as u64 } else { (c[0] as u64) << 8 };
+                }
+            };
+            add(&h.dst_ia.to_be_bytes());
+            add(&h.src_ia.to_be_bytes());
+            add(&h.dst_host);
+            add(&h.src_host);
+            add(&(l4.len() as u32).to_be_bytes());
+            add(&[0, 0, 0, h.next_hdr]);
+            while sum >> 16 != 0 {
+                sum = (sum & 0xffff) + (sum >> 16);
+            }
+            if written == !(sum as u16) {
+                return format!("{proto}-checksum-omits-l4-bytes");
+            }
+        }
+    }
+    format!("{proto}-checksum-does-not-verify")
+}
+
+/// All oracles for one model. Returns the outcome class.
+fn check_model(c: &Case) -> String {
+    let m = c.m;
+    let subj = m.to_subject();
+    let expected = m.expected();
+    let pk = m.pay.kind();
+
+    // (1) announced size, encode at (offset 0, zero fill), (offset 1, zero fill), (offset 1, 0xFF fill), and to_vec
+    let req = match vpc::catch(|| subj.required_size()) {
+        Ok(r) => r,
+        Err(p) => {
+            c.viol(&format!("panic@{}", vpc::last_panic_location()), &format!("required_size panicked: {p}"), || json!({}));
+            return "panic".into();
+        }
+    };
+    let cap = req.max(expected.as_ref().map(|e| e.bytes.len()).unwrap_or(0)).min(1 << 20) + 8;
+    let mut enc: Vec<Result<Vec<u8>, String>> = vec![];
+    for (off, fb) in [(0usize, 0u8), (1, 0), (1, 0xFF)] {
+        let mut a = Aligned::new(cap, fb);
+        let r = vpc::catch(|| subj.try_encode(a.slice(off, cap)));
+        match r {
+            Err(p) => {
+                c.viol(&format!("panic@{}", vpc::last_panic_location()), &format!("try_encode panicked: {p}"), || json!({"offset": off}));
+                return "panic".into();
+            }
+            Ok(Ok(n)) => {
+                if n > cap {
+                    c.viol("encoder-reports-more-than-buffer", "bytes written > buffer", || json!({"n": n, "cap": cap}));
+                    return "bad-size".into();
+                }
+                // bytes behind the announced end must be untouched
+                let s = a.slice(off, cap);
+                if s[n..].iter().any(|b| *b != fb) {
+                    c.viol(&format!("encoder-writes-past-announced-size:{pk}"), "bytes behind the returned size were modified", || json!({"n": n}));
+                }
+                enc.push(Ok(s[..n].to_vec()));
+            }
+            Ok(Err(e)) => enc.push(Err(e)),
+        }
+    }
+    let tovec = match vpc::catch(|| subj.try_encode_to_vec()) {
+        Ok(r) => r,
+        Err(p) => {
+            c.viol(&format!("panic@{}", vpc::last_panic_location()), &format!("try_encode_to_vec panicked: {p}"), || json!({}));
+            return "panic".into();
+        }
+    };
+    let hl_subject = vpc::catch(|| subj.header().required_size()).unwrap_or(0);
+    let accepted = enc[0].is_ok();
+    if enc.iter().any(|e| e.is_ok() != accepted) || tovec.is_ok() != accepted {
+        c.viol("encoder-accept-depends-on-buffer", "try_encode / try_encode_to_vec disagree on acceptance", || json!({}));
+    }
+    if !accepted {
+        let reason = enc[0].as_ref().err().cloned().unwrap_or_default();
+        return match &expected {
+            // rejecting a representable model is allowed by the property (it speaks about accepted models)
+            Ok(_) => format!("rejected-representable:{reason}"),
+            Err(why) => format!("rejected-unrepresentable:{why}"),
+        };
+    }
+    let a = enc[0].as_ref().unwrap();
+    let mut outcome = String::from("ok");
+    let mut lengths_truthful = true;
+
+    if a.len() != req {
+        c.viol(&format!("written-size-differs-from-required-size:{pk}"), "try_encode returned a size different from required_size", || json!({"required_size": req, "written": a.len()}));
+    }
+    if let Ok(v) = &tovec {
+        if v != a {
+            let o = first_diff(v, a);
+            c.viol(&format!("to-vec-differs-from-try-encode@{}", field_at(m, hl_subject, o)), "try_encode_to_vec and try_encode produce different bytes", || json!({"offset": o}));
+        }
+    }
+    if let Ok(b) = &enc[1] {
+        if b != a {
+            let o = first_diff(b, a);
+            c.viol(&format!("alignment-dependent-encoding@{}", field_at(m, hl_subject, o)), "encoding at offset 1 differs from encoding at offset 0", || json!({"offset": o, "at0": hexcap(a), "at1": hexcap(b)}));
+        }
+        if let Ok(cff) = &enc[2] {
+            if cff != b {
+                let o = first_diff(cff, b);
+                c.viol(&format!("unwritten-bytes@{}", field_at(m, hl_subject, o)), "encoder leaves bytes of its announced range unwritten (stale buffer content reaches the wire)", || json!({"offset": o, "zero_prefilled": hexcap(b), "ff_prefilled": hexcap(cff)}));
+            }
+        }
+    }
+
+    // (2) the independent reader
+    let rparse = RHeader::parse(a);
+    match &expected {
+        Err(why) => {
+            // Not representable and yet encoded: show what an independent reader sees.
+            let seen = match &rparse {
+                Ok((h, hl)) => json!({"hdr_len_bytes": hl, "payload_len": h.payload_len, "real_l4_len": a.len().saturating_sub(*hl), "addr_nibbles": [h.dst_tl, h.src_tl], "flow": h.flow_id,
+                    "curr_hf": if let RPath::Std(p) = &h.path { json!(p.curr_hf) } else { json!(null) },
+                    "udp_length": if h.next_hdr == 17 && a.len() >= hl + 6 { json!(u16::from_be_bytes([a[hl + 4], a[hl + 5]])) } else { json!(null) }}),
+                Err(e) => json!({"refwire_error": e}),
+            };
+            c.viol(why, &format!("model is not representable on the wire ({why}) but the encoder accepted it"), || json!({"refwire_sees": seen, "bytes": hexcap(a)}));
+            return format!("accepted-unrepresentable:{why}");
+        }
+        Ok(exp) => {
+            // (2a) length and bytes against the reference writer (checksum field compared separately)
+            if a.len() != exp.bytes.len() {
+                c.viol(&format!("encoded-length-differs:{pk}"), "encoder output length differs from the reference encoding", || json!({"subject": a.len(), "reference": exp.bytes.len(), "subject_bytes": hexcap(a), "reference_bytes": hexcap(&exp.bytes)}));
+                outcome = "length-differs".into();
+            } else {
+                let mut am = a.clone();
+                let mut em = exp.bytes.clone();
+                if let Some(o) = exp.csum_at {
+                    am[o] = 0; am[o + 1] = 0; em[o] = 0; em[o + 1] = 0;
+                }
+                if am != em {
+                    let o = first_diff(&am, &em);
+                    c.viol(&format!("encoded-bytes-differ@{}", field_at(m, exp.hl, o)), "encoder output differs from the reference encoding of the same field values", || json!({"offset": o, "subject": hexcap(a), "reference": hexcap(&exp.bytes)}));
+                    outcome = "bytes-differ".into();
+                }
+            }
+            // (2b) truthful length fields and zero reserved bits as seen by the independent reader
+            match &rparse {
+                Err(e) => {
+                    c.viol(&format!("refwire-cannot-parse:{e}"), "the independent reader rejects the encoder's output", || json!({"bytes": hexcap(a)}));
+                }
+                Ok((h, hl)) => {
+                    if *hl != exp.hl {
+                        lengths_truthful = false;
+                        c.viol("hdr-len-untruthful", "HdrLen does not equal the real header size", || json!({"hdr_len_field_bytes": hl, "real": exp.hl}));
+                    }
+                    if h.payload_len as usize != a.len() - hl.min(&a.len()) {
+                        lengths_truthful = false;
+                        c.viol(if a.len() - hl.min(&a.len()) > 65535 { "payload-len-wraps-at-65536" } else { "payload-len-untruthful" }, "PayloadLen does not equal the bytes behind the header", || json!({"field": h.payload_len, "real": a.len() - hl}));
+                    }
+                    if h.rsv != 0 {
+                        c.viol("reserved-bits-nonzero@common_rsv", "common header RSV not zero", || json!({}));
+                    }
+                    match &h.path {
+                        RPath::Std(p) => {
+                            if p.rsv != 0 || p.infos.iter().any(|i| i.rsv != 0) {
+                                c.viol("reserved-bits-nonzero@path", "path meta / info field RSV not zero", || json!({}));
+                            }
+                        }
+                        RPath::OneHop { info, .. } => {
+                            if info.rsv != 0 {
+                                c.viol("reserved-bits-nonzero@path", "one-hop info field RSV not zero", || json!({}));
+                            }
+                        }
+                        _ => {}
+                    }
+                    let l4 = &a[(*hl).min(a.len())..];
+                    match &m.pay {
+                        PayK::Udp { .. } => match RUdp::parse(l4) {
+                            Ok(_) => {}
+                            Err(e) => c.viol(&if l4.len() > 65535 { "udp-length-wraps-at-65536".to_string() } else { format!("udp-length-untruthful:{e}") }, "UDP Length does not equal the datagram size", || json!({"l4_len": l4.len(), "udp_hdr": hexcap(&l4[..l4.len().min(8)])})),
+                        },
+                        PayK::Scmp(_) => match RScmp::parse(l4) {
+                            Ok(s) => {
+                                if s.reserved_bits() != 0 {
+                                    c.viol(&format!("reserved-bits-nonzero@{pk}"), "SCMP reserved/unused bits not zero", || json!({}));
+                                }
+                            }
+                            Err(e) => c.viol(&format!("refl4-cannot-parse:{pk}:{e}"), "the independent SCMP reader rejects the encoder's output", || json!({"l4": hexcap(l4)})),
+                        },
+                        PayK::Raw { .. } => {}
+                    }
+                    // (2c) checksum over pseudo header AND upper-layer bytes
+                    if exp.csum_at.is_some() {
+                        match refwire::verify_l4_checksum(a) {
+                            Ok(true) => {}
+                            Ok(false) => {
+                                let proto = if matches!(m.pay, PayK::Udp { .. }) { "udp" } else { "scmp" };
+                                let o = exp.csum_at.unwrap();
+                                c.viol(&checksum_class(a, *hl, proto), "L4 checksum does not verify over pseudo header + upper-layer bytes", || json!({"written": format!("{:02x}{:02x}", a[o.min(a.len() - 2)], a[(o + 1).min(a.len() - 1)]), "expected": if a.len() == exp.bytes.len() { format!("{:02x}{:02x}", exp.bytes[o], exp.bytes[o + 1]) } else { "n/a".into() }, "bytes": hexcap(a)}));
+                                if outcome == "ok" {
+                                    outcome = "checksum-fails".into();
+                                }
+                            }
+                            Err(e) => c.viol(&format!("checksum-not-verifiable:{e}"), "reference cannot verify the checksum", || json!({})),
+                        }
+                    }
+                }
+            }
+        }
+    }
+
+    if !lengths_truthful {
+        // the decoder cannot delimit the packet; everything behind this point would be a consequence
+        return "length-field-untruthful".into();
+    }
+    // (3) decode(encode(m)) == m, at both alignments; aliases of the same wire value are allowed
+    let mut dec_models = vec![];
+    for (off, bytes) in [(0usize, a), (1usize, enc[1].as_ref().unwrap_or(a))] {
+        let mut al = Aligned::new(bytes.len() + 8, 0);
+        al.slice(off, bytes.len()).copy_from_slice(bytes);
+        let n = bytes.len();
+        let d = vpc::catch(|| subj.decode_like(al.slice(off, n)));
+        match d {
+            Err(p) => {
+                c.viol(&format!("panic@{}", vpc::last_panic_location()), &format!("decoder panicked on the encoder's output: {p}"), || json!({"bytes": hexcap(bytes)}));
+                return "panic".into();
+            }
+            Ok(Err(e)) => {
+                c.viol(&format!("decoder-rejects-own-encoding:{pk}"), &format!("decoder rejects what the encoder produced: {e}"), || json!({"bytes": hexcap(bytes)}));
+                return "decode-rejects".into();
+            }
+            Ok(Ok((dm, rest))) => {
+                if rest != 0 {
+                    c.viol(&format!("decoder-leaves-trailing-bytes:{pk}"), "decoder does not consume the whole encoding", || json!({"rest": rest}));
+                }
+                dec_models.push(dm);
+            }
+        }
+    }
+    if dec_models[0] != dec_models[1] {
+        c.viol("alignment-dependent-decoding", "decoding at offset 1 yields a different model", || json!({}));
+    }
+    let dm = &dec_models[0];
+    if *dm != subj {
+        // alias of the same wire value? then re-encoding the decoded model gives the same bytes
+        let re = vpc::catch(|| dm.try_encode_to_vec());
+        let same = matches!(&re, Ok(Ok(v)) if v == a);
+        let mut part = subj.diff(dm);
+        if let (false, Ok(Ok(v))) = (same, &re) {
+            // which field of the re-encoding differs decides the attribution
+            if v.len() == a.len() {
+                match field_at(m, hl_subject, first_diff(v, a)).as_str() {
+                    "dst_host" => part = "dst-host",
+                    "src_host" => part = "src-host",
+                    _ => {}
+                }
+            }
+        }
+        let part_n = if part.ends_with("-host") { "host" } else { part };
+        if same {
+            if expected.is_ok() && outcome == "ok" {
+                outcome = format!("ok-alias:{part}");
+            }
+        } else {
+            c.viol(&format!("roundtrip-model-differs@{part_n}:{}", match part { "payload" => pk.to_string(), "path" => m.path.kind(), "dst-host" => m.dst.kind(), "src-host" => m.src.kind(), _ => "hdr".to_string() }), "decode(encode(m)) != m and the decoded model does not even re-encode to the same bytes", || json!({"decoded": format!("{:?}", dm).chars().take(600).collect::<String>(), "bytes": hexcap(a)}));
+            if outcome == "ok" {
+                outcome = "roundtrip-differs".into();
+            }
+        }
+    }
+    outcome
+}
+
+fn first_diff(a: &[u8], b: &[u8]) -> usize {
+    a.iter().zip(b.iter()).position(|(x, y)| x != y).unwrap_or(a.len().min(b.len()))
+}
+
+// ------------------------------------------------------------------------------------------------
+// Reverse direction: reference encodings into the real decoder
+// ------------------------------------------------------------------------------------------------
+
+#[derive(Clone, Debug)]
+enum Tweak {
+    Canonical,
+    /// canonical per the specification but outside what the crate's own model can express
+    CanonWideIfId(u64),
+    CommonRsv,
+    MetaRsv,
+    InfoRsv,
+    ScmpRsv,
+    SvcPadding,
+    TrailingByte,
+    PayloadLenPlus1,
+    PayloadLenMinus1,
+    UdpLenPlus1,
+    UdpLenMinus1,
+    HdrLenPlus1,
+    TracePlaceholder,
+}
+const TWEAKS: &[Tweak] = &[
+    Tweak::Canonical,
+    Tweak::CanonWideIfId(0x1_0000),
+    Tweak::CanonWideIfId(u64::MAX),
+    Tweak::CommonRsv,
+    Tweak::MetaRsv,
+    Tweak::InfoRsv,
+    Tweak::ScmpRsv,
+    Tweak::SvcPadding,
+    Tweak::TrailingByte,
+    Tweak::PayloadLenPlus1,
+    Tweak::PayloadLenMinus1,
+    Tweak::UdpLenPlus1,
+    Tweak::UdpLenMinus1,
+    Tweak::HdrLenPlus1,
+    Tweak::TracePlaceholder,
+];
+
+fn fix_checksum(b: &mut [u8], hl: usize) {
+    if let Ok((h, _)) = RHeader::parse(b) {
+        let off = match h.next_hdr { 17 => 6, 202 => 2, _ => return };
+        if b.len() < hl + off + 2 {
+            return;
+        }
+        b[hl + off] = 0;
+        b[hl + off + 1] = 0;
+        let c = refwire::checksum(h.dst_ia, h.src_ia, &h.dst_host, &h.src_host, h.next_hdr, &b[hl..]);
+        b[hl + off..hl + off + 2].copy_from_slice(&c.to_be_bytes());
+    }
+}
+
+/// Apply a tweak to a canonical reference encoding. None = tweak not applicable to this model.
+fn tweak(m: &M, e: &Expected, t: &Tweak) -> Option<(Vec<u8>, bool)> {
+    // an Unknown{id,len} whose nibble is the one of IPv4 / IPv6 / SVC is read as that type: its
+    // reference bytes are not a canonical encoding of an unknown address (forward oracle covers it)
+    let aliases = |h: &HostK| matches!(h, HostK::Unknown { id: 0, bytes } if bytes.len() == 4 || bytes.len() == 16) || matches!(h, HostK::Unknown { id: 1, bytes } if bytes.len() == 4);
+    if aliases(&m.dst) || aliases(&m.src) {
+        return None;
+    }
+    let mut b = e.bytes.clone();
+    let hl = e.hl;
+    let dl = m.dst.to_ref().ok()?.1.len();
+    let sl = m.src.to_ref().ok()?.1.len();
+    let p0 = 28 + dl + sl;
+    let canonical = match t {
+        Tweak::Canonical => true,
+        Tweak::CanonWideIfId(v) => {
+            match &m.pay {
+                PayK::Scmp(ScmpK::ExtIfDown { .. }) | PayK::Scmp(ScmpK::IntConnDown { .. }) => b[hl + 12..hl + 20].copy_from_slice(&v.to_be_bytes()),
+                PayK::Scmp(ScmpK::TraceRep { .. }) => b[hl + 16..hl + 24].copy_from_slice(&v.to_be_bytes()),
+                _ => return None,
+            }
+            fix_checksum(&mut b, hl);
+            true
+        }
+        Tweak::CommonRsv => {
+            b[11] = 1;
+            false
+        }
+        Tweak::MetaRsv => {
+            if !matches!(m.path, PathK::Std { .. }) {
+                return None;
+            }
+            b[p0 + 1] |= 0x80;
+            false
+        }
+        Tweak::InfoRsv => {
+            match m.path {
+                PathK::Std { .. } => b[p0 + 5] = 0xEE,
+                PathK::OneHop { .. } => b[p0 + 1] = 0xEE,
+                _ => return None,
+            }
+            false
+        }
+        Tweak::ScmpRsv => {
+            match &m.pay {
+                PayK::Scmp(ScmpK::DestUnreach { .. }) | PayK::Scmp(ScmpK::PktTooBig { .. }) | PayK::Scmp(ScmpK::ParamProblem { .. }) => b[hl + 4] = 0x80,
+                _ => return None,
+            }
+            fix_checksum(&mut b, hl);
+            false
+        }
+        Tweak::SvcPadding => {
+            if !matches!(m.dst, HostK::Svc(_)) {
+                return None;
+            }
+            b[28 + 3] = 0x99;
+            fix_checksum(&mut b, hl);
+            false
+        }
+        Tweak::TrailingByte => {
+            b.push(0xAB);
+            false
+        }
+        Tweak::PayloadLenPlus1 | Tweak::PayloadLenMinus1 => {
+            let pl = u16::from_be_bytes([b[6], b[7]]);
+            let n = if matches!(t, Tweak::PayloadLenPlus1) { pl.checked_add(1)? } else { pl.checked_sub(1)? };
+            b[6..8].copy_from_slice(&n.to_be_bytes());
+            false
+        }
+        Tweak::UdpLenPlus1 | Tweak::UdpLenMinus1 => {
+            if !matches!(m.pay, PayK::Udp { .. }) {
+                return None;
+            }
+            let ul = u16::from_be_bytes([b[hl + 4], b[hl + 5]]);
+            let n = if matches!(t, Tweak::UdpLenPlus1) { ul.checked_add(1)? } else { ul.checked_sub(1)? };
+            b[hl + 4..hl + 6].copy_from_slice(&n.to_be_bytes());
+            fix_checksum(&mut b, hl);
+            false
+        }
+        Tweak::HdrLenPlus1 => {
+            b[5] = b[5].checked_add(1)?;
+            false
+        }
+        Tweak::TracePlaceholder => {
+            if !matches!(m.pay, PayK::Scmp(ScmpK::TraceReq { .. })) {
+                return None;
+            }
+            b[hl + 8] = 1;
+            b[hl + 23] = 1;
+            fix_checksum(&mut b, hl);
+            false
+        }
+    };
+    Some((b, canonical))
+}
+
+/// Decode reference bytes with the typed decoder matching NextHdr and with the raw decoder;
+/// canonical inputs that are accepted must re-encode to identical bytes.
+fn check_reverse(c: &Case, t: &Tweak, bytes: &[u8], canonical: bool) -> Vec<String> {
+    let m = c.m;
+    let pk = m.pay.kind();
+    let tn = format!("{t:?}");
+    let tn = tn.split('(').next().unwrap().to_string();
+    let probes: Vec<Subject> = {
+        let s = m.to_subject();
+        match &s {
+            Subject::Raw(_) => vec![s],
+            _ => vec![s.clone(), Subject::Raw(ScionPacket { header: s.header().clone(), payload: vec![] })],
+        }
+    };
+    let mut outs = vec![];
+    for like in &probes {
+        let dk = match like { Subject::Raw(_) => "rawdec", Subject::Udp(_) => "udpdec", Subject::Scmp(_) => "scmpdec" };
+        let d = vpc::catch(|| like.decode_like(bytes));
+        let (dm, rest) = match d {
+            Err(p) => {
+                c.viol(&format!("panic@{}", vpc::last_panic_location()), &format!("decoder panicked on a reference encoding: {p}"), || json!({"tweak": tn, "bytes": hexcap(bytes)}));
+                outs.push("panic".into());
+                continue;
+            }
+            Ok(Err(_)) => {
+                outs.push(if canonical { format!("canonical-rejected:{dk}:{pk}") } else { format!("noncanon-rejected:{tn}:{dk}") });
+                continue;
+            }
+            Ok(Ok(x)) => x,
+        };
+        let re = vpc::catch(|| dm.try_encode_to_vec());
+        let same = matches!(&re, Ok(Ok(v)) if v.len() + rest == bytes.len() && v[..] == bytes[..v.len()]);
+        if !canonical {
+            outs.push(format!("noncanon-accepted-{}:{tn}:{dk}", if same { "preserved" } else if rest > 0 { "rest-returned" } else { "normalised" }));
+            continue;
+        }
+        if rest != 0 {
+            c.viol(&format!("decoder-leaves-trailing-bytes:{dk}:{pk}"), "decoder does not consume a canonical encoding completely", || json!({"rest": rest, "tweak": tn}));
+        }
+        match re {
+            Err(p) => c.viol(&format!("panic@{}", vpc::last_panic_location()), &format!("re-encode of a decoded canonical packet panicked: {p}"), || json!({"tweak": tn, "bytes": hexcap(bytes)})),
+            Ok(Err(e)) => c.viol(&format!("reencode-rejected:{dk}:{pk}"), &format!("decoded canonical packet cannot be re-encoded: {e}"), || json!({"tweak": tn, "bytes": hexcap(bytes)})),
+            Ok(Ok(v)) => {
+                if v != bytes {
+                    let hl = bytes[5] as usize * 4;
+                    let o = first_diff(&v, bytes);
+                    let fld = if v.len() != bytes.len() { "length".to_string() } else { field_at(m, hl, o) };
+                    // a difference confined to the checksum field is the encoder's checksum defect, reported under its own class
+                    let only_csum = v.len() == bytes.len() && {
+                        let mut x = v.clone();
+                        let mut y = bytes.to_vec();
+                        let co = hl + if bytes[4] == 17 { 6 } else { 2 };
+                        if matches!(bytes[4], 17 | 202) && co + 2 <= x.len() { x[co] = 0; x[co + 1] = 0; y[co] = 0; y[co + 1] = 0; }
+                        x == y
+                    };
+                    if only_csum {
+                        let proto = if bytes[4] == 17 { "udp" } else { "scmp" };
+                        c.viol(&checksum_class(&v, hl, proto), "re-encoding a canonical packet changes only the checksum, and the new checksum does not verify", || json!({"tweak": tn, "reencoded": hexcap(&v), "input": hexcap(bytes)}));
+                        outs.push(format!("canonical-reencode-checksum-only:{dk}"));
+                    } else {
+                        let class = match t {
+                            Tweak::CanonWideIfId(_) => format!("scmp-interface-id-truncated-to-16-bits:{pk}"),
+                            // an undefined SCMP type: the specification puts no structure behind the common
+                            // header, the crate discards the 4 bytes behind it when decoding
+                            _ if pk == "scmp-unknown" && dk == "scmpdec" => "scmp-unknown-drops-bytes-4-to-8".to_string(),
+                            _ => format!("canonical-reencode-differs@{fld}:{dk}"),
+                        };
+                        c.viol(&class, "a canonical encoding the decoder accepts does not re-encode to the same bytes", || json!({"tweak": tn, "offset": o, "reencoded": hexcap(&v), "input": hexcap(bytes)}));
+                        outs.push("canonical-reencode-differs".into());
+                    }
+                } else {
+                    outs.push(format!("canonical-roundtrip-ok:{dk}"));
+                }
+            }
+        }
+    }
+    outs
+}
+
+// ------------------------------------------------------------------------------------------------
+// Spaces
+// ------------------------------------------------------------------------------------------------
+
+pub struct Space {
+    pub name: &'static str,
+    pub dims: Vec<usize>,
+    pub build: Box<dyn Fn(&[usize]) -> M + Sync + Send>,
+    /// reverse direction on the members of this space: 0 none, 1 canonical tweaks only, 2 all tweaks
+    pub reverse: u8,
+}
+impl Space {
+    fn total(&self) -> u64 {
+        self.dims.iter().map(|d| *d as u64).product()
+    }
+    fn at(&self, mut i: u64) -> M {
+        let mut ix = vec![0usize; self.dims.len()];
+        for k in (0..self.dims.len()).rev() {
+            ix[k] = (i % self.dims[k] as u64) as usize;
+            i /= self.dims[k] as u64;
+        }
+        (self.build)(&ix)
+    }
+}
+
+const IA1: u64 = 0x0001_ff00_0000_0110;
+const IA2: u64 = 0x0002_ff00_0000_0220;
+
+fn host_kinds() -> Vec<HostK> {
+    let mut v = vec![
+        HostK::V4([10, 0, 0, 1]),
+        HostK::V6([0x20, 1, 0xd, 0xb8, 0, 0, 0, 0, 0, 0, 0, 0, 0, 0, 0, 7]),
+        HostK::Svc(0x0002),
+        HostK::Svc(0x8002),
+        HostK::Svc(0x7777),
+    ];
+    for id in 0..4u8 {
+        for len in [4usize, 8, 12, 16] {
+            v.push(HostK::Unknown { id, bytes: fill(len, 0x60 + id) });
+        }
+    }
+    v
+}
+/// Standard path shapes: 1..=3 segments, hops per segment from `hops`.
+fn std_shapes(hops: &[u16]) -> Vec<Vec<u16>> {
+    let mut v = vec![];
+    for a in hops {
+        v.push(vec![*a]);
+        for b in hops {
+            v.push(vec![*a, *b]);
+            for c in hops {
+                v.push(vec![*a, *b, *c]);
+            }
+        }
+    }
+    v
+}
+/// Pointers to try for a shape: what `wire_valid` may accept plus the first values it must reject.
+fn curr_all(segs: &[u16]) -> Vec<(u8, u8)> {
+    let total: usize = segs.iter().map(|s| *s as usize).sum();
+    let mut v = vec![];
+    for inf in 0..=segs.len().min(255) as u8 {
+        for hf in 0..=total.min(255) as u8 {
+            v.push((inf, hf));
+        }
+    }
+    v
+}
+fn curr_two(segs: &[u16]) -> Vec<(u8, u8)> {
+    let total: usize = segs.iter().map(|s| *s as usize).sum();
+    vec![(0, 0), ((segs.len() - 1) as u8, (total.saturating_sub(1)).min(255) as u8)]
+}
+fn path_kinds(hops: &[u16], full_curr: bool) -> Vec<PathK> {
+    let mut v = vec![PathK::Empty, PathK::OneHop { second_set: false }, PathK::OneHop { second_set: true }];
+    for s in std_shapes(hops) {
+        for (ci, ch) in if full_curr { curr_all(&s) } else { curr_two(&s) } {
+            v.push(PathK::Std { segs: s.clone(), curr_inf: ci, curr_hf: ch });
+        }
+    }
+    for ty in [3u8, 4, 5, 255] {
+        for len in [0usize, 4, 8, 980, 984, 988] {
+            v.push(PathK::Unsupported { ty, len });
+        }
+    }
+    v
+}
+fn pay_kinds(n: usize) -> Vec<PayK> {
+    vec![
+        PayK::Raw { next: 0xFD, len: n },
+        PayK::Udp { sp: 40001, dp: 53, len: n },
+        PayK::Scmp(ScmpK::DestUnreach { code: 4, quote: n + 40 }),
+        PayK::Scmp(ScmpK::PktTooBig { mtu: 1400, quote: n + 40 }),
+        PayK::Scmp(ScmpK::ParamProblem { code: 48, pointer: 9, quote: n + 40 }),
+        PayK::Scmp(ScmpK::ExtIfDown { ia: IA2, ifid: 7, quote: n + 40 }),
+        PayK::Scmp(ScmpK::IntConnDown { ia: IA2, ingress: 7, egress: 9, quote: n + 40 }),
+        PayK::Scmp(ScmpK::EchoReq { id: 0x1234, seq: 3, data: n }),
+        PayK::Scmp(ScmpK::EchoRep { id: 0x1234, seq: 3, data: n }),
+        PayK::Scmp(ScmpK::TraceReq { id: 0x2345, seq: 4 }),
+        PayK::Scmp(ScmpK::TraceRep { id: 0x2345, seq: 4, ia: IA2, ifid: 11 }),
+        PayK::Scmp(ScmpK::Unknown { ty: 200, code: 3, data: n + 3 }),
+    ]
+}
+fn base(dst: HostK, src: HostK, path: PathK, pay: PayK) -> M {
+    M { tc: 0x2e, flow: 0xABCDE, dst_ia: IA1, src_ia: IA2, dst, src, path, pay }
+}
+/// The two defaults of the one-dimension sweeps.
+fn defaults() -> Vec<(HostK, HostK, PathK)> {
+    vec![
+        (HostK::V4([10, 0, 0, 1]), HostK::V4([10, 0, 0, 2]), PathK::Empty),
+        (HostK::V6([0xfd; 16]), HostK::Svc(0x0002), PathK::Std { segs: vec![2, 3], curr_inf: 1, curr_hf: 2 }),
+    ]
+}
+/// header size of default `d`
+fn default_hl(d: usize) -> usize {
+    let (a, b, p) = &defaults()[d];
+    base(a.clone(), b.clone(), p.clone(), PayK::Raw { next: 0, len: 0 }).expected().map(|e| e.hl).unwrap_or(36)
+}
+
+fn spaces(tier: vpc::Tier) -> Vec<Space> {
+    let thorough = tier == vpc::Tier::Thorough;
+    let hosts = host_kinds();
+    let nh = hosts.len();
+    let hops: Vec<u16> = vec![1, 2, 3, 12, 13, 63];
+    let mut v: Vec<Space> = vec![];
+
+    // core: address kinds^2 x path kinds x payload kinds
+    {
+        let paths = path_kinds(&hops, false);
+        let pays = pay_kinds(5);
+        let (h, p, y) = (hosts.clone(), paths.clone(), pays.clone());
+        v.push(Space { name: "core", dims: vec![nh, nh, paths.len(), pays.len()], reverse: 1, build: Box::new(move |ix| base(h[ix[0]].clone(), h[ix[1]].clone(), p[ix[2]].clone(), y[ix[3]].clone())) });
+    }
+    // every (CurrINF, CurrHF) of every shape: quick with 2 address pairs x 3 payload kinds, thorough with everything
+    {
+        let paths: Vec<PathK> = path_kinds(&hops, true).into_iter().filter(|p| matches!(p, PathK::Std { .. })).collect();
+        let pays = pay_kinds(5);
+        let pays: Vec<PayK> = if thorough { vec![pays[0].clone(), pays[1].clone()] } else { vec![pays[0].clone(), pays[1].clone(), pays[7].clone()] };
+        let hp: Vec<(HostK, HostK)> = if thorough {
+            hosts.iter().flat_map(|a| hosts.iter().map(move |b| (a.clone(), b.clone()))).collect()
+        } else {
+            vec![(hosts[0].clone(), hosts[1].clone()), (hosts[20].clone(), hosts[2].clone())]
+        };
+        v.push(Space { name: "curr", dims: vec![hp.len(), paths.len(), pays.len()], reverse: 0, build: Box::new(move |ix| base(hp[ix[0]].0.clone(), hp[ix[0]].1.clone(), paths[ix[1]].clone(), pays[ix[2]].clone())) });
+    }
+    // payload size sweep
+    {
+        let mut sizes: Vec<usize> = vec![0, 1, 2, 3, 65527, 65528, 65536, 65543, 131071];
+        for d in 0..2 {
+            let hl = default_hl(d);
+            for k in 0..=10 {
+                sizes.push((1232 - hl + 1).saturating_sub(k));
+            }
+            for s in (65535 - hl - 30)..=65536 {
+                sizes.push(s);
+            }
+        }
+        sizes.sort();
+        sizes.dedup();
+        let sized = |k: usize, n: usize| -> PayK {
+            match k {
+                0 => PayK::Raw { next: 0xFD, len: n },
+                1 => PayK::Udp { sp: 1, dp: 2, len: n },
+                2 => PayK::Scmp(ScmpK::DestUnreach { code: 0, quote: n }),
+                3 => PayK::Scmp(ScmpK::PktTooBig { mtu: 0, quote: n }),
+                4 => PayK::Scmp(ScmpK::ParamProblem { code: 0, pointer: 0, quote: n }),
+                5 => PayK::Scmp(ScmpK::ExtIfDown { ia: IA1, ifid: 1, quote: n }),
+                6 => PayK::Scmp(ScmpK::IntConnDown { ia: IA1, ingress: 1, egress: 2, quote: n }),
+                7 => PayK::Scmp(ScmpK::EchoReq { id: 1, seq: 1, data: n }),
+                8 => PayK::Scmp(ScmpK::EchoRep { id: 1, seq: 1, data: n }),
+                _ => PayK::Scmp(ScmpK::Unknown { ty: 77, code: 0, data: n }),
+            }
+        };
+        let d = defaults();
+        v.push(Space { name: "payload-size", dims: vec![2, 10, sizes.len()], reverse: 0, build: Box::new(move |ix| base(d[ix[0]].0.clone(), d[ix[0]].1.clone(), d[ix[0]].2.clone(), sized(ix[1], sizes[ix[2]]))) });
+        // the largest payloads additionally behind 4 header shapes (incl. the largest header)
+        let big: Vec<usize> = vec![65535, 65536, 131071];
+        let shapes: Vec<PathK> = vec![PathK::Empty, PathK::OneHop { second_set: true }, PathK::Std { segs: vec![63, 13], curr_inf: 0, curr_hf: 0 }, PathK::Unsupported { ty: 3, len: 980 }];
+        v.push(Space { name: "payload-size-x-header", dims: vec![shapes.len(), 3, big.len()], reverse: 0, build: Box::new(move |ix| base(HostK::V4([1, 2, 3, 4]), HostK::V6([9; 16]), shapes[ix[0]].clone(), sized([0, 1, 7][ix[1]], big[ix[2]]))) });
+    }
+    // SCMP offending-packet length 0..=1300, every value, 5 error kinds, 2 defaults + largest header
+    {
+        let mut d = defaults();
+        d.push((HostK::V6([1; 16]), HostK::V6([2; 16]), PathK::Unsupported { ty: 4, len: 960 }));
+        v.push(Space { name: "scmp-quote-len", dims: vec![d.len(), 5, 1301], reverse: 2, build: Box::new(move |ix| {
+            let q = ix[2];
+            let s = match ix[1] {
+                0 => ScmpK::DestUnreach { code: 1, quote: q },
+                1 => ScmpK::PktTooBig { mtu: 1280, quote: q },
+                2 => ScmpK::ParamProblem { code: 16, pointer: 5, quote: q },
+                3 => ScmpK::ExtIfDown { ia: IA1, ifid: 5, quote: q },
+                _ => ScmpK::IntConnDown { ia: IA1, ingress: 5, egress: 6, quote: q },
+            };
+            base(d[ix[0]].0.clone(), d[ix[0]].1.clone(), d[ix[0]].2.clone(), PayK::Scmp(s))
+        }) });
+    }
+    // scalar fields one at a time: flow id, traffic class, ISD-AS, ids / seqs / pointers / interface ids
+    {
+        let d = defaults();
+        let vals: Vec<(&'static str, u64)> = {
+            let mut x = vec![];
+            for f in [0u64, 1, 0xFFFFF, 0x100000, 0xFFFF_FFFF] { x.push(("flow", f)); }
+            for t in [0u64, 255] { x.push(("tc", t)); }
+            for ia in [0u64, 1, u64::MAX, 0x0001_0000_0000_0000, 0x0000_ffff_ffff_ffff] { x.push(("dst_ia", ia)); x.push(("src_ia", ia)); x.push(("scmp_ia", ia)); }
+            for k in [0u64, 1, 0xFFFF] { x.push(("id", k)); x.push(("seq", k)); x.push(("pointer", k)); x.push(("mtu", k)); x.push(("ifid", k)); x.push(("ifid2", k)); x.push(("sport", k)); x.push(("dport", k)); x.push(("code", k & 0xff)); x.push(("svc", k)); }
+            x
+        };
+        let pays = pay_kinds(5);
+        let np = pays.len();
+        v.push(Space { name: "scalars", dims: vec![2, np, vals.len()], reverse: 2, build: Box::new(move |ix| {
+            let (what, val) = vals[ix[2]];
+            let mut m = base(d[ix[0]].0.clone(), d[ix[0]].1.clone(), d[ix[0]].2.clone(), pays[ix[1]].clone());
+            match what {
+                "flow" => m.flow = val as u32,
+                "tc" => m.tc = val as u8,
+                "dst_ia" => m.dst_ia = val,
+                "src_ia" => m.src_ia = val,
+                "svc" => m.dst = HostK::Svc(val as u16),
+                _ => {
+                    let x16 = val as u16;
+                    m.pay = match (m.pay.clone(), what) {
+                        (PayK::Udp { dp, len, .. }, "sport") => PayK::Udp { sp: x16, dp, len },
+                        (PayK::Udp { sp, len, .. }, "dport") => PayK::Udp { sp, dp: x16, len },
+                        (PayK::Scmp(s), w) => PayK::Scmp(match (s, w) {
+                            (ScmpK::DestUnreach { quote, .. }, "code") => ScmpK::DestUnreach { code: val as u8, quote },
+                            (ScmpK::ParamProblem { pointer, quote, .. }, "code") => ScmpK::ParamProblem { code: val as u8, pointer, quote },
+                            (ScmpK::ParamProblem { code, quote, .. }, "pointer") => ScmpK::ParamProblem { code, pointer: x16, quote },
+                            (ScmpK::PktTooBig { quote, .. }, "mtu") => ScmpK::PktTooBig { mtu: x16, quote },
+                            (ScmpK::ExtIfDown { ifid, quote, .. }, "scmp_ia") => ScmpK::ExtIfDown { ia: val, ifid, quote },
+                            (ScmpK::ExtIfDown { ia, quote, .. }, "ifid") => ScmpK::ExtIfDown { ia, ifid: x16, quote },
+                            (ScmpK::IntConnDown { ingress, egress, quote, .. }, "scmp_ia") => ScmpK::IntConnDown { ia: val, ingress, egress, quote },
+                            (ScmpK::IntConnDown { ia, egress, quote, .. }, "ifid") => ScmpK::IntConnDown { ia, ingress: x16, egress, quote },
+                            (ScmpK::IntConnDown { ia, ingress, quote, .. }, "ifid2") => ScmpK::IntConnDown { ia, ingress, egress: x16, quote },
+                            (ScmpK::EchoReq { seq, data, .. }, "id") => ScmpK::EchoReq { id: x16, seq, data },
+                            (ScmpK::EchoReq { id, data, .. }, "seq") => ScmpK::EchoReq { id, seq: x16, data },
+                            (ScmpK::EchoRep { seq, data, .. }, "id") => ScmpK::EchoRep { id: x16, seq, data },
+                            (ScmpK::EchoRep { id, data, .. }, "seq") => ScmpK::EchoRep { id, seq: x16, data },
+                            (ScmpK::TraceReq { seq, .. }, "id") => ScmpK::TraceReq { id: x16, seq },
+                            (ScmpK::TraceReq { id, .. }, "seq") => ScmpK::TraceReq { id, seq: x16 },
+                            (ScmpK::TraceRep { seq, ia, ifid, .. }, "id") => ScmpK::TraceRep { id: x16, seq, ia, ifid },
+                            (ScmpK::TraceRep { id, ia, ifid, .. }, "seq") => ScmpK::TraceRep { id, seq: x16, ia, ifid },
+                            (ScmpK::TraceRep { id, seq, ifid, .. }, "scmp_ia") => ScmpK::TraceRep { id, seq, ia: val, ifid },
+                            (ScmpK::TraceRep { id, seq, ia, .. }, "ifid") => ScmpK::TraceRep { id, seq, ia, ifid: x16 },
+                            (ScmpK::Unknown { ty, data, .. }, "code") => ScmpK::Unknown { ty, code: val as u8, data },
+                            (s, _) => s,
+                        }),
+                        (p, _) => p,
+                    };
+                }
+            }
+            m
+        }) });
+    }
+    // models that have no wire representation (or alias another model): addresses, paths, SCMP types
+    {
+        let mut hs: Vec<HostK> = vec![];
+        for id in [4u8, 5, 63, 64, 255] {
+            for len in [4usize, 16] {
+                hs.push(HostK::Unknown { id, bytes: fill(len, 0x70) });
+            }
+        }
+        for len in [0usize, 1, 2, 3, 5, 6, 7, 13, 15] {
+            hs.push(HostK::Unknown { id: 2, bytes: fill(len, 0x71) });
+        }
+        let mut ps: Vec<PathK> = vec![
+            PathK::Std { segs: vec![], curr_inf: 0, curr_hf: 0 },
+            PathK::Std { segs: vec![0], curr_inf: 0, curr_hf: 0 },
+            PathK::Std { segs: vec![2, 0], curr_inf: 0, curr_hf: 0 },
+            PathK::Std { segs: vec![0, 2], curr_inf: 0, curr_hf: 0 },
+            PathK::Std { segs: vec![64], curr_inf: 0, curr_hf: 0 },
+            PathK::Std { segs: vec![70], curr_inf: 0, curr_hf: 0 },
+            PathK::Std { segs: vec![64, 1], curr_inf: 1, curr_hf: 64 },
+            PathK::Std { segs: vec![63, 16], curr_inf: 1, curr_hf: 64 },
+            PathK::Std { segs: vec![63, 16], curr_inf: 1, curr_hf: 78 },
+            PathK::Std { segs: vec![2, 2], curr_inf: 4, curr_hf: 0 },
+            PathK::Std { segs: vec![2, 2], curr_inf: 255, curr_hf: 0 },
+        ];
+        for ty in [0u8, 1, 2] {
+            for len in [0usize, 4, 32, 36] {
+                ps.push(PathK::Unsupported { ty, len });
+            }
+        }
+        for ty in [3u8, 255] {
+            for len in [1usize, 2, 3, 5, 986, 992, 1000, 2000] {
+                ps.push(PathK::Unsupported { ty, len });
+            }
+        }
+        let mut ys: Vec<PayK> = vec![];
+        for ty in [1u8, 2, 4, 5, 6, 128, 129, 130, 131] {
+            for data in [0usize, 4, 16, 20, 24] {
+                ys.push(PayK::Scmp(ScmpK::Unknown { ty, code: 0, data }));
+            }
+        }
+        for ty in [0u8, 3, 127, 132, 255] {
+            for data in [0usize, 1, 3, 4, 5] {
+                ys.push(PayK::Scmp(ScmpK::Unknown { ty, code: 1, data }));
+            }
+        }
+        let d = defaults();
+        let pays = pay_kinds(5);
+        let (n1, n2, n3) = (hs.len(), ps.len(), ys.len());
+        let np = pays.len();
+        // dimension 1 selects which list is swept
+        v.push(Space { name: "unrepresentable", dims: vec![2, 4, n1.max(n2).max(n3), np], reverse: 0, build: Box::new(move |ix| {
+            let mut m = base(d[ix[0]].0.clone(), d[ix[0]].1.clone(), d[ix[0]].2.clone(), pays[ix[3]].clone());
+            match ix[1] {
+                0 => m.dst = hs[ix[2] % n1].clone(),
+                1 => m.src = hs[ix[2] % n1].clone(),
+                2 => m.path = ps[ix[2] % n2].clone(),
+                _ => m.pay = ys[ix[2] % n3].clone(),
+            }
+            m
+        }) });
+    }
+    v
+}
+
+// ------------------------------------------------------------------------------------------------
+// Entry point
+// ------------------------------------------------------------------------------------------------
+
 pub fn run(args: &vpc::Args) -> ! {
-    vpc::machinery_failure(&format!("property {} not implemented yet", args.prop))
+    vpc::quiet_panics();
+    if let Some(f) = &args.replay {
+        replay(args, f);
+    }
+    let run = vpc::Run::new(args);
+    // large payload models allocate > 128 KiB buffers: keep them on the heap (no mmap/munmap per allocation)
+    unsafe {
+        libc::mallopt(libc::M_MMAP_THRESHOLD, 1 << 30);
+        libc::mallopt(libc::M_TRIM_THRESHOLD, 1 << 30);
+    }
+    let sp = spaces(args.tier);
+    let evals = AtomicU64::new(0);
+    let rev_evals = AtomicU64::new(0);
+    let accepted = AtomicU64::new(0);
+    let distinct = vpc::Distinct::default();
+    let mut per_space = vec![];
+    for (space_no, s) in sp.iter().enumerate() {
+        let total = s.total();
+        let t0 = run.elapsed_s();
+        let chunk = (total / 512).clamp(1, 256);
+        let nchunks = total.div_ceil(chunk);
+        (0..nchunks).into_par_iter().for_each(|ci| {
+            let mut outs: std::collections::BTreeMap<String, u64> = Default::default();
+            let mut keys = vec![];
+            let counts = std::cell::RefCell::new(Tally::new());
+            for i in ci * chunk..((ci + 1) * chunk).min(total) {
+                let m = s.at(i);
+                let c = Case { run: &run, space: s.name, space_no, index: i, m: &m, tally: &counts };
+                let o = check_model(&c);
+                evals.fetch_add(1, Ordering::Relaxed);
+                if !o.starts_with("rejected") {
+                    accepted.fetch_add(1, Ordering::Relaxed);
+                    keys.push(vpc::fnv64(format!("{}|{}", m.class_key(), o.split(':').next().unwrap()).as_bytes()));
+                }
+                *outs.entry(format!("fwd:{o}")).or_default() += 1;
+                if i % 9973 == 0 {
+                    run.sample(6, || json!({"space": s.name, "index": i, "model": format!("{m:?}"), "outcome": o}));
+                }
+                if s.reverse > 0 {
+                    if let Ok(e) = m.expected() {
+                        for t in TWEAKS {
+                            if s.reverse == 1 && !matches!(t, Tweak::Canonical | Tweak::CanonWideIfId(_)) {
+                                continue;
+                            }
+                            if let Some((b, canon)) = tweak(&m, &e, t) {
+                                rev_evals.fetch_add(1, Ordering::Relaxed);
+                                for o in check_reverse(&c, t, &b, canon) {
+                                    *outs.entry(format!("rev:{o}")).or_default() += 1;
+                                }
+                            }
+                        }
+                    }
+                }
+            }
+            for (k, n) in outs {
+                run.outcome_n(&k, n);
+            }
+            distinct.extend(keys);
+            merge_tally(counts.into_inner());
+        });
+        per_space.push(json!({"space": s.name, "dims": s.dims, "models": total, "wall_s": ((run.elapsed_s() - t0) * 10.0).round() / 10.0}));
+    }
+    let evaluations = evals.load(Ordering::Relaxed);
+    let witness_counts = flush_tally(&run);
+    run.finish(
+        "exploration",
+        json!({
+            "evaluations": evaluations + rev_evals.load(Ordering::Relaxed),
+            "forward_models": evaluations,
+            "forward_models_accepted_by_encoder": accepted.load(Ordering::Relaxed),
+            "reverse_byte_strings": rev_evals.load(Ordering::Relaxed),
+            "distinct_nontrivial": distinct.len(),
+            "rule": "distinct (dst address kind, src address kind, path kind, payload kind, outcome class) tuples among models the encoder ACCEPTED (each went through all byte/field/checksum/round-trip oracles)",
+            "exhaustive": true,
+            "spaces": per_space,
+            "witnesses_per_violation_class": witness_counts,
+            "bound": format!("{} tier: every element of the listed spaces (mixed-radix products, no sampling); each accepted model encoded at offset 0/zero-filled, offset 1/zero-filled, offset 1/0xFF-filled of an 8-aligned allocation and via try_encode_to_vec; decoded at offsets 0 and 1; reverse direction = {} tweaks per member of the spaces marked reverse", args.tier.name(), TWEAKS.len()),
+        }),
+        &[
+            "refwire/refl4 are the reading of the SCION header, SCION/UDP and SCMP formats; a defect shared by them and sciparse is invisible",
+            "payload bytes, MACs, timestamps come from one deterministic pattern; they do not influence any length computation",
+            "undefined SCMP types are expected with their data directly behind the 4-byte common header (the crate's own layout diagram says the same)",
+            "IPv6 hop-by-hop / end-to-end extension headers are not modelled by the crate and not generated",
+        ],
+    )
+}
+
+fn replay(args: &vpc::Args, f: &std::path::Path) -> ! {
+    let v = vpc::read_replay(f);
+    let w = &v["witness"];
+    let space = w["space"].as_str().unwrap_or("");
+    let index = w["index"].as_u64().unwrap_or(0);
+    let mut found = false;
+    for tier in [vpc::Tier::Quick, vpc::Tier::Thorough] {
+        for s in spaces(tier) {
+            if s.name == space && index < s.total() {
+                let m = s.at(index);
+                if format!("{m:?}") != w["model"].as_str().unwrap_or("") {
+                    continue;
+                }
+                found = true;
+                println!("replay: space={space} index={index}\nmodel: {m:?}");
+                // a throw-away run that writes nothing: print violations directly
+                let a2 = vpc::Args { prop: args.prop.clone(), tier, seed: 0, replay: None, extra: vec![] };
+                let run = vpc::Run::new(&a2);
+                let counts = std::cell::RefCell::new(Tally::new());
+                let c = Case { run: &run, space: s.name, space_no: 0, index, m: &m, tally: &counts };
+                let o = check_model(&c);
+                println!("forward outcome: {o}");
+                match m.expected() {
+                    Ok(e) => {
+                        println!("reference bytes: {}", hexcap(&e.bytes));
+                        if s.reverse > 0 {
+                            for t in TWEAKS {
+                                if let Some((b, canon)) = tweak(&m, &e, t) {
+                                    println!("reverse {t:?} canonical={canon}: {:?}", check_reverse(&c, t, &b, canon));
+                                }
+                            }
+                        }
+                    }
+                    Err(why) => println!("reference: not representable ({why})"),
+                }
+                if let Ok(b) = m.to_subject().try_encode_to_vec() {
+                    println!("subject bytes:   {}", hexcap(&b));
+                }
+                let t = counts.into_inner();
+                for (class, (n, _, what, w)) in &t {
+                    println!("VIOLATION-IN-REPLAY [{class}] x{n} {what}\n    {}", w["detail"]);
+                }
+                std::process::exit(if t.is_empty() { 0 } else { 1 });
+            }
+        }
+        if found {
+            break;
+        }
+    }
+    vpc::machinery_failure("replay witness does not name a member of a known space")
 }
